@@ -333,6 +333,8 @@ where
 impl<K, V> TreeBin<K, V> {
     /// Acquires write lock for tree restucturing.
     fn lock_root(&self, guard: &Guard<'_>, collector: &Collector) {
+        #[cfg(flurry_verif)]
+        crate::verif::raw(crate::verif::Kind::Cas, &self.lock_state, 0, WRITER as isize, "lock_state");
         if self
             .lock_state
             .compare_exchange(0, WRITER, Ordering::SeqCst, Ordering::Relaxed)
@@ -345,6 +347,8 @@ impl<K, V> TreeBin<K, V> {
 
     /// Releases write lock for tree restructuring.
     fn unlock_root(&self) {
+        #[cfg(flurry_verif)]
+        crate::verif::raw(crate::verif::Kind::Store, &self.lock_state, 0, 0, "lock_state");
         self.lock_state.store(0, Ordering::Release);
     }
 
@@ -353,9 +357,13 @@ impl<K, V> TreeBin<K, V> {
         let mut waiting = false;
         let mut state: i64;
         loop {
+            #[cfg(flurry_verif)]
+            crate::verif::raw(crate::verif::Kind::Load, &self.lock_state, 0, 0, "lock_state");
             state = self.lock_state.load(Ordering::Acquire);
             if state & !WAITER == 0 {
                 // there are no writing or reading threads
+                #[cfg(flurry_verif)]
+                crate::verif::raw(crate::verif::Kind::Cas, &self.lock_state, state as isize, WRITER as isize, "lock_state");
                 if self
                     .lock_state
                     .compare_exchange(state, WRITER, Ordering::SeqCst, Ordering::Relaxed)
@@ -390,6 +398,8 @@ impl<K, V> TreeBin<K, V> {
             } else if state & WAITER == 0 {
                 // we have not indicated yet that we are waiting, so we need to
                 // do that now
+                #[cfg(flurry_verif)]
+                crate::verif::raw(crate::verif::Kind::Cas, &self.lock_state, state as isize, (state | WAITER) as isize, "lock_state");
                 if self
                     .lock_state
                     .compare_exchange(state, state | WAITER, Ordering::SeqCst, Ordering::Relaxed)
@@ -401,8 +411,12 @@ impl<K, V> TreeBin<K, V> {
                     assert!(waiter.is_null());
                 }
             } else if waiting {
+                #[cfg(flurry_verif)]
+                crate::verif::before_park();
                 park();
             }
+            #[cfg(flurry_verif)]
+            crate::verif::spin();
             std::hint::spin_loop();
         }
     }
@@ -439,7 +453,11 @@ impl<K, V> TreeBin<K, V> {
         let bin_deref = unsafe { bin.deref() }.as_tree_bin().unwrap();
         let mut element = bin_deref.first.load(Ordering::SeqCst, guard);
         while !element.is_null() {
+            #[cfg(flurry_verif)]
+            crate::verif::raw(crate::verif::Kind::Load, &bin_deref.lock_state, 0, 0, "lock_state");
             let s = bin_deref.lock_state.load(Ordering::SeqCst);
+            #[cfg(flurry_verif)]
+            crate::verif::raw(crate::verif::Kind::Yield, &bin_deref.lock_state, s as isize, (s + READER) as isize, "lock_state");
             if s & (WAITER | WRITER) != 0 {
                 // another thread is modifying or wants to modify the tree
                 // (write). As long as that's the case, we follow the `next`
@@ -470,6 +488,8 @@ impl<K, V> TreeBin<K, V> {
                 } else {
                     TreeNode::find_tree_node(root, hash, key, guard)
                 };
+                #[cfg(flurry_verif)]
+                crate::verif::raw(crate::verif::Kind::FetchAdd, &bin_deref.lock_state, -(READER as isize), 0, "lock_state");
                 if bin_deref.lock_state.fetch_add(-READER, Ordering::SeqCst) == (READER | WAITER) {
                     // we were the last reader holding up a waiting writer, so
                     // we unpark the waiting writer by granting it a token
@@ -480,6 +500,8 @@ impl<K, V> TreeBin<K, V> {
                         // Since the thread behind the `waiter` handle is
                         // currently _waiting_ on said lock, the handle will not
                         // yet be dropped.
+                        #[cfg(flurry_verif)]
+                        crate::verif::on_unpark(unsafe { waiter.deref() });
                         unsafe { waiter.deref() }.unpark();
                     }
                 }
@@ -940,6 +962,8 @@ impl<K, V> TreeBin<K, V> {
         bin: Shared<'g, BinEntry<K, V>>,
         guard: &'g Guard<'_>,
     ) {
+        #[cfg(flurry_verif)]
+        crate::verif::atomic::<BinEntry<K, V>>(crate::verif::Kind::Retire, bin.as_ptr() as usize, 1, crate::verif::guard_flag(guard) as usize, None, None, crate::verif::guard_flag(guard));
         guard.defer_retire(bin.as_ptr(), |link| {
             let bin = unsafe {
                 // SAFETY: `bin` is a `Linked<BinEntry<K, V>>`
